@@ -10,7 +10,7 @@
    once.  Holds for SIR, SEIR, SIR_FixedRecovery, Opinion; fails for SIS, SIRS, SIS_FixedRecovery
    (C08_once_tables).  Everything is for every such well-formed table, every network, initial
    assignment, oracle, fuel, both schedulers (every run is a [Steps] sequence: C07_runs_stoch,
-   C07_runs_sync).  SIvR and SIR_VariableInfection are not in the Coq model. *)
+   C07_runs_sync).  SIvR is outside C08 (it does not call markHit); SIR_VariableInfection is covered at the end of this file (C08_vi theorems). *)
 From Coq Require Import List ZArith QArith Bool Arith Relations Sorted.
 From EpyV Require Import Model.Kernel Model.Loci Model.Compart Proofs.KernelLoops
   Proofs.CompartRun Proofs.CompartInv Proofs.CompartDiagram Proofs.CompartModels
@@ -265,3 +265,240 @@ Example C08_event_functions_example :
   /\ summarise (PEdge [SUnpack; SChange 3]) = Some (HLeft 3 false None)
   /\ summarise (PNode [SSetAttr; SSetAttr]) = Some HNop.
 Proof. repeat split; vm_compute; reflexivity. Qed.
+
+(* ================================================================================================
+   The contact forest for SIR_VariableInfection (state-dependent event table, Model/KernelDyn.v): every call of
+   the dynamic table does to the compartmented part of the world exactly what the corresponding call of the static
+   table vi_fcm vm (infect listed as an ordinary event on the SI locus) does, so the invariant Forest and all its
+   corollaries above hold for whole VI runs (DSteps), also for the posted-removal subclass.
+   Proofs/ContactVI.v, ContactVITime.v, ContactVIMain.v. *)
+From EpyV Require Import Model.KernelDyn Model.CompartVI Proofs.CompartRun Proofs.CompartInv Proofs.ContactBase Proofs.ContactInv Proofs.ContactForest Proofs.ContactTime Proofs.KernelDyn Proofs.KernelDynLoops Proofs.KernelDynRun Proofs.CompartVI Proofs.CompartVIMain Proofs.ContactVI Proofs.ContactVITime Proofs.CompartVIQuiet Proofs.CompartVIPost Proofs.ContactVIMain.
+
+Theorem C08_vi_shipped :
+  forall p : Q,
+         CompartDiagram.wf_model (vi_fcm (sir_vi p)) = true /\
+         once_model (vi_fcm (sir_vi p)) = true /\
+         sus (vi_fcm (sir_vi p)) = [3%Z] /\
+         (forall T : Q,
+          0 <= T ->
+          CompartDiagram.wf_model (vi_fcm (sir_vi_gen p (Some T))) = true /\
+          once_model (vi_fcm (sir_vi_gen p (Some T))) = true).
+Proof. exact CVI8_shipped. Qed.
+
+Theorem C08_vi_forest_is_forest :
+  forall (vm : vimodel) (nodes : list Z) (edges init : list (Z * Z)) (w : viworld),
+         VForest vm nodes edges init w <-> Forest (vi_fcm vm) nodes edges init (vi_base w).
+Proof. exact CVI8_forest_is_forest. Qed.
+
+Theorem C08_vi_forest_inv :
+  forall (vm : vimodel) (nodes : list Z) (edges init : list (Z * Z)) (inf : list (Z * Z * Q))
+           (maxtime : Q) (monitor : option Q) (Xtr : trans viworld -> Prop) (rs ls : list Q) 
+           (ds : list nat) (cs : list (st viworld * dcall)) (s : st viworld),
+         let D := mk_vitable vm nodes edges init inf maxtime monitor in
+         CompartDiagram.wf_model (vi_fcm vm) = true ->
+         once_model (vi_fcm vm) = true ->
+         graph_okb nodes edges = true ->
+         init_ok (vi_fcm vm) nodes init = true ->
+         DSteps D Xtr (setup_state (d_tb D) rs ls ds) cs s ->
+         VForest vm nodes edges init (world s) /\
+         Forall (fun sc : st viworld * dcall => VForest vm nodes edges init (world (fst sc))) cs.
+Proof. exact CVI8_forest_inv. Qed.
+
+Theorem C08_vi_forest_inv_call :
+  forall (vm : vimodel) (nodes : list Z) (edges init : list (Z * Z)) (inf : list (Z * Z * Q))
+           (maxtime : Q) (monitor : option Q) (Xtr : trans viworld -> Prop) (s : st viworld) 
+           (c : dcall),
+         let D := mk_vitable vm nodes edges init inf maxtime monitor in
+         CompartDiagram.wf_model (vi_fcm vm) = true ->
+         once_model (vi_fcm vm) = true ->
+         KV vm nodes edges init s -> dcall_ok D Xtr c s -> KV vm nodes edges init (dafter D c s).
+Proof. exact CVI8_forest_inv_call. Qed.
+
+Theorem C08_vi_forest_final_stoch :
+  forall (vm : vimodel) (nodes : list Z) (edges init : list (Z * Z)) (inf : list (Z * Z * Q))
+           (maxtime : Q) (monitor : option Q) (pf fuel : nat) (rs ls : list Q) (ds : list nat),
+         CompartDiagram.wf_model (vi_fcm vm) = true ->
+         once_model (vi_fcm vm) = true ->
+         graph_okb nodes edges = true ->
+         init_ok (vi_fcm vm) nodes init = true ->
+         VForest vm nodes edges init
+           (world (r_final (dstoch_run (mk_vitable vm nodes edges init inf maxtime monitor) pf fuel rs ls ds))).
+Proof. exact CVI8_forest_final_stoch. Qed.
+
+Theorem C08_vi_forest_final_sync :
+  forall (vm : vimodel) (nodes : list Z) (edges init : list (Z * Z)) (inf : list (Z * Z * Q))
+           (maxtime : Q) (monitor : option Q) (pf fuel : nat) (rs : list Q) (ds : list nat),
+         CompartDiagram.wf_model (vi_fcm vm) = true ->
+         once_model (vi_fcm vm) = true ->
+         graph_okb nodes edges = true ->
+         init_ok (vi_fcm vm) nodes init = true ->
+         VForest vm nodes edges init
+           (world (r_final (dsync_run (mk_vitable vm nodes edges init inf maxtime monitor) pf fuel rs ds))).
+Proof. exact CVI8_forest_final_sync. Qed.
+
+Theorem C08_vi_unique_parent :
+  forall (vm : vimodel) (nodes : list Z) (edges init : list (Z * Z)) (w : viworld) (n : Z) (t : Q),
+         VForest vm nodes edges init w ->
+         In (n, t) (cw_hit (vi_base w)) ->
+         exists m : Z,
+           In (n, m, t) (cw_occ (vi_base w)) /\
+           (forall (m' : Z) (t' : Q), In (n, m', t') (cw_occ (vi_base w)) -> m' = m /\ t' = t).
+Proof. exact CVI8_unique_parent. Qed.
+
+Theorem C08_vi_one_hit_per_node :
+  forall (vm : vimodel) (nodes : list Z) (edges init : list (Z * Z)) (w : viworld),
+         VForest vm nodes edges init w -> NoDup (map fst (cw_hit (vi_base w))).
+Proof. exact CVI8_one_hit_per_node. Qed.
+
+Theorem C08_vi_hit_nodes :
+  forall (vm : vimodel) (nodes : list Z) (edges init : list (Z * Z)) (w : viworld),
+         VForest vm nodes edges init w ->
+         (forall n : Z, In n (map fst (cw_hit (vi_base w))) <-> In n (map child (cw_occ (vi_base w)))) /\
+         (forall (n : Z) (t : Q),
+          In (n, t) (cw_hit (vi_base w)) ->
+          exists c : Z, In c (sus (vi_fcm vm)) /\ getc (setup (vim_specs vm) nodes edges init) n = Some c) /\
+         (forall v c : Z,
+          getc (cw_st (vi_base w)) v = Some c ->
+          In c (sus (vi_fcm vm)) ->
+          forall x : Z * Z * Q, In x (cw_occ (vi_base w)) -> child x <> v /\ parent x <> v).
+Proof. exact CVI8_hit_nodes. Qed.
+
+Theorem C08_vi_acyclic :
+  forall (vm : vimodel) (nodes : list Z) (edges init : list (Z * Z)) (w : viworld),
+         VForest vm nodes edges init w ->
+         let P := par (cw_occ (vi_base w)) in
+         (forall (n m m' : Z) (t t' : Q),
+          In (n, m, t) (cw_occ (vi_base w)) -> In (n, m', t') (cw_occ (vi_base w)) -> m = m' /\ t = t') /\
+         (forall n : Z, ~ clos_trans Z P n n) /\
+         (forall n : Z,
+          In n (map fst (cw_hit (vi_base w))) ->
+          exists r : Z, clos_refl_trans Z P n r /\ ~ In r (map fst (cw_hit (vi_base w)))) /\
+         forestL (cw_occ (vi_base w)).
+Proof. exact CVI8_acyclic. Qed.
+
+Theorem C08_vi_skeleton :
+  forall (vm : vimodel) (nodes : list Z) (edges init : list (Z * Z)) (inf : list (Z * Z * Q))
+           (maxtime : Q) (monitor : option Q) (Xtr : trans viworld -> Prop) (rs ls : list Q) 
+           (ds : list nat) (cs : list (st viworld * dcall)) (s : st viworld),
+         let D := mk_vitable vm nodes edges init inf maxtime monitor in
+         CompartDiagram.wf_model (vi_fcm vm) = true ->
+         once_model (vi_fcm vm) = true ->
+         graph_okb nodes edges = true ->
+         init_ok (vi_fcm vm) nodes init = true ->
+         DSteps D Xtr (setup_state (d_tb D) rs ls ds) cs s ->
+         let w := vi_base (world s) in
+         fst (skeleton w) = nodes /\
+         (forall e : Z * Z,
+          In e (snd (skeleton w)) <->
+          In e edges /\
+          (exists x : Z * Z * Q, In x (cw_occ w) /\ (e = (child x, parent x) \/ e = (parent x, child x)))) /\
+         (forall x : Z * Z * Q,
+          In x (cw_occ w) ->
+          In (child x, parent x) (snd (skeleton w)) \/ In (parent x, child x) (snd (skeleton w))).
+Proof. exact CVI8_skeleton. Qed.
+
+Theorem C08_vi_event_time :
+  forall (vm : vimodel) (nodes : list Z) (edges init : list (Z * Z)) (inf : list (Z * Z * Q))
+           (maxtime : Q) (monitor : option Q) (Xtr : trans viworld -> Prop) (rs ls : list Q) 
+           (ds : list nat) (cs : list (st viworld * dcall)) (s : st viworld) (n m : Z) 
+           (t : Q),
+         let D := mk_vitable vm nodes edges init inf maxtime monitor in
+         CompartDiagram.wf_model (vi_fcm vm) = true ->
+         once_model (vi_fcm vm) = true ->
+         graph_okb nodes edges = true ->
+         init_ok (vi_fcm vm) nodes init = true ->
+         DSteps D Xtr (setup_state (d_tb D) rs ls ds) cs s ->
+         In (n, m, t) (cw_occ (vi_base (world s))) ->
+         exists sc : st viworld * dcall,
+           In sc cs /\
+           (forall hh : entry, snd sc <> DPost hh) /\
+           snd (fst (dcall_args (snd sc))) = t /\
+           snd (dcall_args (snd sc)) = EE n m /\ clock (fst sc) = t /\ dcall_ok D Xtr (snd sc) (fst sc).
+Proof. exact CVI8_event_time. Qed.
+
+Theorem C08_vi_occupied_are_infections :
+  forall (vm : vimodel) (nodes : list Z) (edges init : list (Z * Z)) (inf : list (Z * Z * Q))
+           (maxtime : Q) (monitor : option Q) (Xtr : trans viworld -> Prop) (rs ls : list Q) 
+           (ds : list nat) (cs : list (st viworld * dcall)) (s : st viworld),
+         let D := mk_vitable vm nodes edges init inf maxtime monitor in
+         CompartDiagram.wf_model (vi_fcm vm) = true ->
+         once_model (vi_fcm vm) = true ->
+         graph_okb nodes edges = true ->
+         init_ok (vi_fcm vm) nodes init = true ->
+         DSteps D Xtr (setup_state (d_tb D) rs ls ds) cs s -> cw_occ (vi_base (world s)) = vinfections vm cs.
+Proof. exact CVI8_occupied_are_infections. Qed.
+
+Theorem C08_vi_times_increase :
+  forall (R : Q -> Q -> Prop) (vm : vimodel) (nodes : list Z) (edges init : list (Z * Z))
+           (inf : list (Z * Z * Q)) (maxtime : Q) (monitor : option Q) (Xtr : trans viworld -> Prop)
+           (rs ls : list Q) (ds : list nat) (cs : list (st viworld * dcall)) (s : st viworld),
+         let D := mk_vitable vm nodes edges init inf maxtime monitor in
+         CompartDiagram.wf_model (vi_fcm vm) = true ->
+         once_model (vi_fcm vm) = true ->
+         graph_okb nodes edges = true ->
+         init_ok (vi_fcm vm) nodes init = true ->
+         DSteps D Xtr (setup_state (d_tb D) rs ls ds) cs s ->
+         StronglySorted R (map snd (vinfections vm cs)) ->
+         forall (n m : Z) (t t' : Q),
+         In (n, m, t) (cw_occ (vi_base (world s))) -> In (m, t') (cw_hit (vi_base (world s))) -> R t' t.
+Proof. exact CVI8_times_increase. Qed.
+
+Theorem C08_vi_times_strict_sync :
+  forall (vm : vimodel) (nodes : list Z) (edges init : list (Z * Z)) (inf : list (Z * Z * Q))
+           (maxtime : Q) (monitor : option Q) (pf fuel : nat) (rs : list Q) (ds : list nat),
+         CompartDiagram.wf_model (vi_fcm vm) = true ->
+         once_model (vi_fcm vm) = true ->
+         graph_okb nodes edges = true ->
+         init_ok (vi_fcm vm) nodes init = true ->
+         let w :=
+           vi_base
+             (world (r_final (dsync_run (mk_vitable vm nodes edges init inf maxtime monitor) pf fuel rs ds)))
+           in
+         forall (n m : Z) (t t' : Q), In (n, m, t) (cw_occ w) -> In (m, t') (cw_hit w) -> t' < t.
+Proof. exact CVI8_times_strict_sync. Qed.
+
+Theorem C08_vi_times_strict_stoch :
+  forall (vm : vimodel) (nodes : list Z) (edges init : list (Z * Z)) (inf : list (Z * Z * Q))
+           (maxtime : Q) (monitor : option Q) (pf fuel : nat) (rs ls : list Q) (ds : list nat),
+         CompartDiagram.wf_model (vi_fcm vm) = true ->
+         once_model (vi_fcm vm) = true ->
+         graph_okb nodes edges = true ->
+         init_ok (vi_fcm vm) nodes init = true ->
+         (forall ev : cevent, In ev (vim_events vm) -> 0 <= ce_p ev) ->
+         (forall x : Z * Z * Q, In x inf -> 0 <= snd x) ->
+         Forall (Qlt 0) ls ->
+         let r := dstoch_run (mk_vitable vm nodes edges init inf maxtime monitor) pf fuel rs ls ds in
+         r_stuck r = false ->
+         forall (n m : Z) (t t' : Q),
+         In (n, m, t) (cw_occ (vi_base (world (r_final r)))) ->
+         In (m, t') (cw_hit (vi_base (world (r_final r)))) -> t' < t.
+Proof. exact CVI8_times_strict_stoch. Qed.
+
+Example C08_vi_example_hyps :
+  CompartDiagram.wf_model (vi_fcm (sir_vi (1 # 4))) = true /\
+         once_model (vi_fcm (sir_vi (1 # 4))) = true /\
+         graph_okb [0%Z; 1%Z; 2%Z] [(0%Z, 1%Z); (1%Z, 2%Z)] = true /\
+         init_ok (vi_fcm (sir_vi (1 # 4))) [0%Z; 1%Z; 2%Z] [(0%Z, 1%Z); (1%Z, 3%Z); (2%Z, 3%Z)] = true.
+Proof. exact CVI8_example_hyps. Qed.
+
+Example C08_vi_example_stoch :
+  let r :=
+           dstoch_run (ex8 None) 50 50 [1 # 2; 1 # 2; 1 # 2; 1 # 2; 1 # 2; 1 # 2; 1 # 2; 1 # 2]
+             [3 # 8; 3 # 4; 1; 3] [0%nat; 0%nat] in
+         let w := vi_base (world (r_final r)) in
+         r_stuck r = false /\
+         cw_occ w = [(1%Z, 0%Z, 1 # 2); (2%Z, 1%Z, 7 # 2)] /\
+         cw_hit w = [(1%Z, 1 # 2); (2%Z, 7 # 2)] /\
+         skeleton w = ([0%Z; 1%Z; 2%Z], [(0%Z, 1%Z); (1%Z, 2%Z)]) /\ Forall (Qlt 0) [3 # 8; 3 # 4; 1; 3].
+Proof. exact CVI8_example_stoch. Qed.
+
+Example C08_vi_example_sync :
+  let r :=
+           dsync_run (ex8 None) 50 50
+             [1 # 2; 1 # 4; 1 # 2; 1 # 2; 1 # 8; 1 # 2; 1 # 2; 1 # 2; 1 # 2; 1 # 2; 1 # 2; 1 # 2; 1 # 2] [] in
+         let w := vi_base (world (r_final r)) in
+         r_stuck r = false /\
+         cw_occ w = [(1%Z, 0%Z, 1); (2%Z, 1%Z, 2)] /\
+         cw_hit w = [(1%Z, 1); (2%Z, 2)] /\ skeleton w = ([0%Z; 1%Z; 2%Z], [(0%Z, 1%Z); (1%Z, 2%Z)]).
+Proof. exact CVI8_example_sync. Qed.
+
